@@ -298,8 +298,7 @@ def customC (sc : Sc) (cl : Clip) (x y : List Nat) : Outcome :=
 
 /-- `I32Env sc cl x y B`: `B ≥ 1` bounds the absolute value of the substitution scores that occur and of both gap
 penalties; gap and clip penalties are `≤ 0`, the clip penalties are `≥ MIN_SCORE` (any value in between, not only
-`MIN_SCORE` or small); and `(max(m, n, 2) + 1) · B ≤ 2³¹ + MIN_SCORE` (= 1 288 490 189 in the pinned tree).  For `max(m, n) ≥ 2` the bound is
-exact: with `yclip_prefix = MIN_SCORE`, `gap_open = gap_extend = −B` the sum `yclip_prefix + gap_open + gap_extend * m` of
+`MIN_SCORE` or small); and `(max(m, n) + 1) · B ≤ 2³¹ + MIN_SCORE` (= 1 288 490 189 in the pinned tree).  The bound is exact: with `yclip_prefix = MIN_SCORE`, `gap_open = gap_extend = −B` the sum `yclip_prefix + gap_open + gap_extend * m` of
 row `m` is `MIN_SCORE − (m + 1)·B` (the real code panics there for the first `B` beyond the bound: docs/notes/C01.md).
 Decidable. -/
 structure I32Env (sc : Sc) (cl : Clip) (x y : List Nat) (B : Int) : Prop where
@@ -312,13 +311,13 @@ structure I32Env (sc : Sc) (cl : Clip) (x y : List Nat) (B : Int) : Prop where
   xs : minScore ≤ cl.xs ∧ cl.xs ≤ 0
   yp : minScore ≤ cl.yp ∧ cl.yp ≤ 0
   ys : minScore ≤ cl.ys ∧ cl.ys ≤ 0
-  room : ((max (max x.length y.length) 2 : Nat) + 1) * B ≤ 2147483648 + minScore
+  room : ((max x.length y.length : Nat) + 1) * B ≤ 2147483648 + minScore
 
 theorem i32Env_iff (sc : Sc) (cl : Clip) (x y : List Nat) (B : Int) : I32Env sc cl x y B ↔
     (1 ≤ B ∧ (∀ a ∈ x, ∀ b ∈ y, -B ≤ sc.w a b) ∧ (∀ a ∈ x, ∀ b ∈ y, sc.w a b ≤ B) ∧ (-B ≤ sc.go ∧ sc.go ≤ 0) ∧
       (-B ≤ sc.ge ∧ sc.ge ≤ 0) ∧ (minScore ≤ cl.xp ∧ cl.xp ≤ 0) ∧ (minScore ≤ cl.xs ∧ cl.xs ≤ 0) ∧
       (minScore ≤ cl.yp ∧ cl.yp ≤ 0) ∧ (minScore ≤ cl.ys ∧ cl.ys ≤ 0) ∧
-      ((max (max x.length y.length) 2 : Nat) + 1) * B ≤ 2147483648 + minScore) :=
+      ((max x.length y.length : Nat) + 1) * B ≤ 2147483648 + minScore) :=
   ⟨fun ⟨a, b, c, d, e, f, g, h, i, j⟩ => ⟨a, b, c, d, e, f, g, h, i, j⟩,
    fun ⟨a, b, c, d, e, f, g, h, i, j⟩ => ⟨a, b, c, d, e, f, g, h, i, j⟩⟩
 
@@ -351,7 +350,7 @@ def i32Env (sc : Sc) (cl : Clip) (x y : List Nat) : Bool :=
   decide (sc.go ≤ 0) && decide (sc.ge ≤ 0) &&
     decide (minScore ≤ cl.xp ∧ cl.xp ≤ 0) && decide (minScore ≤ cl.xs ∧ cl.xs ≤ 0) &&
     decide (minScore ≤ cl.yp ∧ cl.yp ≤ 0) && decide (minScore ≤ cl.ys ∧ cl.ys ≤ 0) &&
-    decide (((max (max x.length y.length) 2 : Nat) + 1) * B ≤ 2147483648 + minScore)
+    decide (((max x.length y.length : Nat) + 1) * B ≤ 2147483648 + minScore)
 
 /-- `AlignEnv`, as the driver evaluates it (with `B = bMax`) -/
 def alignEnv (sc : Sc) (cl : Clip) (x y : List Nat) : Bool :=
